@@ -24,6 +24,10 @@ def gen_scenario(rng, big=False):
             servers_udp.append(i)
         if k == "tcp_server":
             servers_tcp.append(i)
+    if n >= 3 and rng.random() < 0.3:
+        # a multicast scenario: one sender, the others members of one group
+        kinds = ["mc_sender"] + ["mc_member"] * (n - 1)
+        rng.shuffle(kinds)
     hosts = []
     for i, k in enumerate(kinds):
         h = {"kind": k, "salt": rng.randrange(1, 1 << 20)}
@@ -35,6 +39,10 @@ def gen_scenario(rng, big=False):
             h.update({"target": "n%d" % t, "n": rng.randrange(1, 4)})
         elif k == "spawner":
             h.update({"tasks": rng.randrange(2, 9)})
+        elif k == "mc_sender":
+            h.update({"n": rng.randrange(3, 9)})
+        elif k == "mc_member":
+            h.update({"leave_after": rng.choice([1000, 1000, 2, 4])})
         elif k == "racer":
             h.update({"lanes": 3, "rounds": rng.randrange(6, 20)})
         elif k == "fs":
@@ -48,7 +56,16 @@ def gen_scenario(rng, big=False):
     for _ in range(rng.choice([0, 1, 2, 4, 6])):
         k = rng.randrange(2, nsteps)
         r = rng.random()
-        if r < 0.3:
+        if r < 0.12 and n >= 2:
+            # host sets by regex: several hosts crashed / bounced / cut in resolution order
+            pat = rng.choice(["^n", "^n[0-%d]$" % rng.randrange(n), "^n[%d-%d]$" % (rng.randrange(n), n - 1)])
+            ctl.setdefault(str(k), []).append(["crash_re", pat])
+            ctl.setdefault(str(min(nsteps - 1, k + rng.randrange(0, 12))), []).append(["bounce_re", pat])
+        elif r < 0.2 and n >= 2:
+            pat, pat2 = "^n[0-%d]$" % rng.randrange(n), rng.choice(["^n", "^n[%d-%d]$" % (rng.randrange(n), n - 1)])
+            ctl.setdefault(str(k), []).append([rng.choice(["partition_re", "hold_re"]), pat, pat2])
+            ctl.setdefault(str(min(nsteps - 1, k + rng.randrange(1, 15))), []).append([rng.choice(["repair_re", "release_re"]), pat, pat2])
+        elif r < 0.3:
             h = rng.randrange(n)
             ctl.setdefault(str(k), []).append(["crash", h])
             ctl.setdefault(str(min(nsteps - 1, k + rng.randrange(0, 12))), []).append(["bounce", h])
